@@ -18,7 +18,8 @@ const INITIAL: [i64; 14] = [1, 10, 20, 30, 100, 200, 1000, 2000, 5, 6, 7, 8, 9, 
 const NAMES: [&str; 14] = ["x", "arr[0]", "arr[1]", "arr[2]", "s.a", "s.b", "w.a", "w.b", "t.a", "t.arr[0]", "t.arr[1]", "t.arr[2]", "t.inner.a", "t.inner.b"];
 
 /// (name, parameter type, read expression, write statement, is pointer kind)
-const KINDS: [(&str, &str, &str, &str, bool); 8] = [
+const KINDS: [(&str, &str, &str, &str, bool); 9] = [
+	("pointer to endless array", "&[..]i32", "p[0]", "p[0] = 55;", true),
 	("value", "i32", "p", "p = 55;", false),
 	("word by value", "W", "p.a", "p.a = 55;", false),
 	("view of array", "[]i32", "p[0]", "p[0] = 55;", false),
@@ -97,6 +98,9 @@ fn param_accepts(kind: usize, arg: usize) -> Option<bool>
 			_ => Some(false),
 		},
 		"&S" => Some(base == "S" && amps == 1),
+		// which arguments a pointer to an endless array takes is not documented; such cells
+		// are judged for non-interference only
+		"&[..]i32" => None,
 		_ => match (base, amps)
 		{
 			("&i32", 2) => Some(true),
@@ -239,6 +243,7 @@ pub fn cells() -> Vec<Cell>
 					"[]i32" => "arr",
 					"S" => "s",
 					"&[]i32" => "&arr",
+					"&[..]i32" => "&arr",
 					"&i32" => "&x",
 					"&S" => "&s",
 					_ => "&&q",
